@@ -484,8 +484,8 @@ func (c *Context) onPing(message *messages.PingMessage) {
 
 func (c *Context) onWatch(_ *messages.WatchMessage) {
 	sender := c.envelop.Sender()
-	// 父节点不需要显式监听子节点，因为父节点会自动监听子节点
-	if sender.Equals(c.parent) {
+	// 父节点不需要显式监听子节点，因为父节点会自动监听子节点（根 Actor 没有父节点，c.parent 为 nil *Ref，不可参与比较）
+	if c.parent != nil && sender.Equals(c.parent) {
 		c.Logger().Debug("parent does not need to watch child explicitly; this is handled by default", log.String("ref", c.ref.GetPath()), log.String("address", sender.GetAddress()), log.String("path", sender.GetPath()))
 		return
 	}
